@@ -189,7 +189,7 @@ def run(tier, seed_):
                       "weighted_barycenter_spring_layout", "bipartite_spring_layout")
         if slow and tier == "quick":
             pick = pick[:12]
-        jobs.append((fn, pick, i * 100000))
+        jobs.append((fn, pick, i * 100003))
     recs = []
     with ProcessPoolExecutor(max_workers=common.NCPU) as ex:
         for part in ex.map(_worker, jobs):
